@@ -109,7 +109,7 @@ func keyOID(k string) string {
 	if o, ok := attrOID[k]; ok {
 		return o
 	}
-	return k
+	return core.CanonOID(k)
 }
 
 // genOID draws an encodable OID with 2..7 arcs.
@@ -134,6 +134,11 @@ func genOID(t *rapid.T, label string) string {
 			v = int64(rapid.SampledFrom([]int{0, 127, 128, 16383, 16384, 2097151, 2097152, 1<<31 - 1}).Draw(t, label+"-v"))
 		}
 		parts = append(parts, fmt.Sprint(v))
+	}
+	if rapid.IntRange(0, 7).Draw(t, label+"-zeropad") == 0 {
+		// arcs are decimal numbers: leading zeros do not change them
+		i := rapid.IntRange(0, len(parts)-1).Draw(t, label+"-padarc")
+		parts[i] = strings.Repeat("0", rapid.IntRange(1, 2).Draw(t, label+"-padn")) + parts[i]
 	}
 	return strings.Join(parts, ".")
 }
@@ -252,6 +257,14 @@ func genRawBytes(t *rapid.T, label string, maxLen int) []byte {
 	out := make([]byte, n)
 	for i := range out {
 		out[i] = seed[i%len(seed)] + byte(i/len(seed))*31
+	}
+	if rapid.IntRange(0, 5).Draw(t, label+"-derlike") == 0 && n >= 3 && n-2 < 128 {
+		// payload that is itself one complete DER element (OCTET STRING, SEQUENCE, UTF8String, BIT STRING ...)
+		out[0] = rapid.SampledFrom([]byte{0x04, 0x04, 0x30, 0x0c, 0x03, 0x13, 0x05, 0x80}).Draw(t, label+"-dertag")
+		out[1] = byte(n - 2)
+		if out[0] == 0x03 {
+			out[2] = 0
+		}
 	}
 	return out
 }
